@@ -787,6 +787,10 @@ constexpr std::size_t DNS_MAX_LABEL_SIZE = 63;
 constexpr std::size_t DNS_MAX_NAME_SIZE = 255;
 constexpr std::uint8_t DNS_COMPRESSION_MASK = 0xC0;
 constexpr std::uint16_t DNS_COMPRESSION_POINTER_MASK = 0x3FFF;
+// Upper bound on compression pointers followed while decoding ONE name. A name has at most 127 labels and a
+// compressor points at labels, so real names stay far below; without a bound one response can make the parser
+// walk (records x chain length) pointers on the I/O thread.
+constexpr std::size_t DNS_MAX_COMPRESSION_JUMPS = 128;
 } // namespace constants
 
 } // namespace dns
